@@ -864,6 +864,7 @@ func TestRegress(t *testing.T)    { run.Regress(t, spec) }
 func TestReplay(t *testing.T) {
 	run.ReplayOne(t, spec)
 	run.ReplayOne(t, combSpec)
+	run.ReplayOne(t, concSpec)
 }
 
 // TestExhaustive4x4 enumerates every closed ring of 3 and 4 vertices on the
